@@ -122,6 +122,9 @@ func verifyFunc(prog *Program, fc *FuncContract) (res *FuncResult) {
 		}
 		if isSlcSort(s) {
 			v.Orig = map[string]bool{id.Name: true}
+		} else if _, isIface := obj.Type().Underlying().(*types.Interface); isIface {
+			// an interface parameter may box a slice of the caller's
+			v.Orig = map[string]bool{id.Name: true}
 		}
 		st.vars[obj] = v
 		env.vals[id.Name] = v
